@@ -5,5 +5,7 @@ CONSTANTS
   MaskByPosition = TRUE
   RawScriptFallback = TRUE
   MutClasses <- MutNone
+  PreOps <- PreNone
+  SkipIfSignedAddr = FALSE
 INVARIANTS SameSignersUpToCanon CanonAgree SoundUpToDupKeys
 CHECK_DEADLOCK FALSE
